@@ -13,12 +13,12 @@ func fmtComposer() *format {
 		id:   "composerlock",
 		path: "composer.lock",
 		pool: []rec{
-			{Name: "monolog/monolog", Version: "3.4.0", Tag: "plain"},
+			{Name: "monolog/monolog", Version: "13.4.0", Tag: "plain"},
 			{Name: "symfony/polyfill-mbstring", Version: "v1.28.0", Tag: "v-prefixed-version"},
 			{Name: "a.b/c-d_e", Version: "2.0.0-RC1", Tag: "dots-underscore-name-rc"},
 			{Name: "laravel/framework", Version: "dev-master", Tag: "dev-branch-version"},
 			{Name: "drupal/core", Version: "10.1.x-dev", Tag: "x-dev-version"},
-			{Name: "psr/log", Version: "1.1.4", Tag: "short"},
+			{Name: "monolog/monolog1", Version: "3.4.0", Tag: "name+version-concat-equals-plain"},
 		},
 		dims: []dim{
 			{name: "eol", labels: eolLabels},
